@@ -5,6 +5,8 @@ func allRules() []*Rule {
 	return []*Rule{
 		ruleR1(),
 		ruleR2(),
+		ruleR3(),
+		ruleR4(),
 		ruleR6(),
 		ruleR7(),
 		ruleR8(),
@@ -14,8 +16,17 @@ func allRules() []*Rule {
 		ruleR12(),
 		ruleR13(),
 		ruleR14(),
+		ruleR15(),
 		ruleR16(),
+		ruleR17(),
+		ruleR18(),
+		ruleR19(),
+		ruleR20(),
+		ruleR24(),
+		ruleR25(),
+		ruleR26(),
 		ruleR21(),
 		ruleR22(),
+		ruleR23(),
 	}
 }
